@@ -32,7 +32,7 @@ def generate(rng: random.Random, tier: str):
                       'tol': rng.choice(['default', 'zero', 'zero']), 'seed': rng.randrange(1 << 30)})
     for _ in range(150 if thorough else 40):
         cases.append({'kind': 'block', 'rows': rng.randint(1, 3), 'cols': rng.randint(1, 3), 'n': rng.randint(1, 3), 'aligned': rng.random() < 0.5,
-                      'seed': rng.randrange(1 << 30)})
+                      'history': rng.random() < 0.5, 'seed': rng.randrange(1 << 30)})
     for _ in range(40 if thorough else 10):
         cases.append({'kind': 'batched', 'seed': rng.randrange(1 << 30), 'budget': rng.choice([1, 3, 30])})
     return cases
@@ -151,6 +151,24 @@ def run_block(case, drv):
     elif float(val) < true * (1 - 1e-3):
         viol = {'signature': f'block:not-upper-bound:cols{"1" if c == 1 else ">1"}',
                 'what': f'documented upper bound {float(val):.6g} is below the true norm {true:.6g} of the {r}x{c} block operator (n={n}, aligned={case["aligned"]}, seed {case["seed"]})'}
+    if viol is None and case.get('history'):
+        # the estimate depends on the operators as they are *now*: after an in-place update of a parameter of one block
+        # (optimiser step, load_state_dict) a second call on the same matrix object must equal a call on a freshly built matrix
+        i, j = rng.randrange(r), rng.randrange(c)
+        factor = rng.choice([4.0, 8.0, 0.125])
+        target = M._operators[i][j]
+        with torch.no_grad():
+            target.matrix.mul_(factor)
+        mats[i][j] = mats[i][j] * factor
+        st2, again = call(lambda: M.operator_norm(*vs, max_iterations=1000, relative_tolerance=0.0, absolute_tolerance=0.0))
+        fresh_m = LinearOperatorMatrix([[mrpro.operators.EinsumOp(m.to(torch.float32)) for m in row] for row in mats])
+        st3, fresh = call(lambda: fresh_m.operator_norm(*vs, max_iterations=1000, relative_tolerance=0.0, absolute_tolerance=0.0))
+        if st2 != 'ok' or st3 != 'ok':
+            viol = {'signature': 'block:raises', 'what': f'LinearOperatorMatrix.operator_norm raises after a parameter update: {again if st2 != "ok" else fresh}'}
+        elif abs(float(again) - float(fresh)) > 1e-4 * (1 + abs(float(fresh))):
+            viol = {'signature': 'block:stale-after-parameter-update',
+                    'what': f'operator_norm of the same {r}x{c} matrix object after scaling block ({i},{j}) in place by {factor} returns {float(again):.6g}, '
+                            f'a freshly built matrix of the same operators gives {float(fresh):.6g} (first call gave {float(val):.6g}; seed {case["seed"]})'}
     return Outcome(key=('block', r, c, n, case['aligned'], case['seed'] % 23), viol=viol, branches=[f'block:{r}x{c}', f'aligned:{case["aligned"]}'],
                    sample={**case, 'bound': float(val) if st == 'ok' else None, 'true_norm': true})
 
